@@ -126,7 +126,8 @@ struct LzhToken { bool match; uint8_t lit; uint16_t len; uint16_t pos; };
 typedef std::vector<LzhToken> LzhTokens;
 
 // Encode a token list. Stops before a token whose tree update would exceed the counter capacity.
-inline std::vector<uint8_t> lzhEncode(const LzhTokens& toks, size_t* encodedTokens = nullptr) {
+// uncapped: keep encoding past that point (32-bit counters), producing a stream that NEEDS more updates than 16-bit counters hold.
+inline std::vector<uint8_t> lzhEncode(const LzhTokens& toks, size_t* encodedTokens = nullptr, bool uncapped = false) {
 	using namespace lzh;
 	Tree t;
 	unsigned char d_code[256], d_len[256];
@@ -139,7 +140,7 @@ inline std::vector<uint8_t> lzhEncode(const LzhTokens& toks, size_t* encodedToke
 	auto putBits = [&](unsigned v, int n) { for (int i = n - 1; i >= 0; --i) putBit((v >> i) & 1); };
 	size_t done = 0;
 	for (auto& tk : toks) {
-		if (t.atCapacity()) break;
+		if (!uncapped && t.atCapacity()) break;
 		int c = tk.match ? 253 + tk.len : tk.lit;
 		// path leaf -> root, emitted root -> leaf; a node's index parity says left (even) / right (odd)
 		int k = t.prnt[c + T];
@@ -197,6 +198,19 @@ inline LzhTokens tokenize(const std::vector<uint8_t>& p, uint64_t seed) {
 		}
 		toks.push_back(best);
 		i += best.match ? best.len : 1;
+	}
+	return toks;
+}
+
+// Token lists dominated by one symbol (a literal or one match length) with probability num/den; the rest as randomTokens.
+inline LzhTokens skewedTokens(uint64_t seed, size_t n, uint64_t num, uint64_t den, bool dominantIsMatch) {
+	LzhTokens toks;
+	Rng r(seed ^ 0x736b6577);
+	LzhToken dom = dominantIsMatch ? LzhToken{true, 0, static_cast<uint16_t>(3 + r.below(58)), static_cast<uint16_t>(r.below(64))} : LzhToken{false, static_cast<uint8_t>(r.below(256)), 0, 0};
+	for (size_t i = 0; i < n; ++i) {
+		if (r.chance(num, den)) { toks.push_back(dom); continue; }
+		if (r.chance(2, 3)) toks.push_back(LzhToken{false, static_cast<uint8_t>(r.chance(1, 2) ? r.below(256) : 'a' + r.below(6)), 0, 0});
+		else { unsigned hi = static_cast<unsigned>(r.below(64)); toks.push_back(LzhToken{true, 0, static_cast<uint16_t>(3 + r.below(58)), static_cast<uint16_t>((hi << 6) | r.below(64))}); }
 	}
 	return toks;
 }
